@@ -693,6 +693,35 @@ def _gen_partial_order(ctx):
                                                      _operand(rng, rng.choice([T, "dict"]), labels, spin, maxlen=2, max_terms=2))}
 
 
+def _gen_tuple_labels(ctx):
+    # tuple labels (grid coordinates): every pair (i, j) / (j, i) over range(6), written in both orders
+    pairs = [((i, j), (j, i)) for i in range(6) for j in range(i + 1, 6)]
+    for spin in (False, True):
+        for T in _types(spin):
+            if T in MATRIX_TYPES:
+                continue
+            for a, b in pairs:
+                yield {"kind": _kind(spin), "expr": ("-", ("m", T, {(a, b): 3, (a,): 1}), ("m", T, {(b, a): 3, (b,): -2}))}
+                yield {"kind": _kind(spin), "expr": ("*", ("m", T, {(a,): 1}), ("m", T, {(b,): 1}))}
+                yield {"kind": _kind(spin), "expr": ("*", ("m", T, {(b,): 1}), ("m", T, {(a,): 1}))}
+    rng = ctx.rng("c05.tuplelabels")
+    labs = [(i, j) for i in range(4) for j in range(4) if i != j] + [(0, 'a'), ('a', 0), (1, 1)]
+    for _ in range(ctx.pick(60, 1500)):
+        spin = rng.random() < 0.5
+        T = rng.choice([t for t in _types(spin) if t not in MATRIX_TYPES])
+        labels = rng.sample(labs[:12], 3)
+        yield {"kind": _kind(spin), "expr": (rng.choice(["+", "-", "*"]), _operand(rng, T, labels, spin, maxlen=2, max_terms=2),
+                                             _operand(rng, rng.choice([T, "dict"]), labels, spin, maxlen=2, max_terms=2))}
+
+
+@clause("C05.tuple_labels", "C05", gen=_gen_tuple_labels, nontrivial=_nonconstant)
+def check_tuple_labels(case):
+    """the arithmetic contract over labels that are tuples (e.g. grid coordinates), in particular labels that are
+    permutations of each other such as (0, 1) and (1, 0): one stored key per monomial whatever order the labels were
+    written in, models of one function compare equal. Non-trivial: result is non-constant."""
+    return _check_expr(case)
+
+
 @clause("C05.partially_ordered_labels", "C05", gen=_gen_partial_order, nontrivial=_nonconstant)
 def check_partial_order(case):
     """the arithmetic contract of C05.add_sub / C05.mul over hashable labels whose own `<` is only a partial order
@@ -1169,4 +1198,56 @@ def check_operands(case):
     if type(R) is not cls_of(rt):
         return Fail("%s %s %s returned %s, expected %s" % (_rtype(e[1]), op, _rtype(e[2]) if op in BIN else e[2:],
                                                             type(R).__name__, rt), key="result-type")
+    return None
+
+
+# ---------------------------------------------------------------------------------------------
+# known findings of round 4 (reported by seeding agents on their unchanged worktrees, confirmed natively)
+# ---------------------------------------------------------------------------------------------
+def _gen_equal_labels(ctx):
+    for T in ("PUBO", "QUBO", "PUSO", "QUSO", "PCBO", "PCSO"):
+        yield {"type": T, "a": (0, True), "b": (0, 1)}
+        yield {"type": T, "a": (1.0, 2), "b": (1, 2.0)}
+        yield {"type": T, "a": (2, 1.0), "b": (2, 1)}
+    for T in ("PUBOMatrix", "QUBOMatrix"):
+        yield {"type": T, "a": (0, True), "b": (0, 1)}
+
+
+@clause("C05.equal_labels_of_different_types", "C05", gen=_gen_equal_labels, nontrivial=lambda c: True)
+def check_equal_labels(case):
+    """Labels that are equal as Python objects but of different types (1 == True == 1.0) are one variable; a monomial
+    written with either spelling denotes the same function, so the two models must compare equal and their difference
+    must be empty."""
+    T = cls_of(case["type"])
+    A, B = T({tuple(case["a"]): 3}), T({tuple(case["b"]): 3})
+    if tuple(case["a"]) != tuple(case["b"]) and sorted(map(hash, case["a"])) != sorted(map(hash, case["b"])):
+        return Skip("labels are not equal")
+    d = A - B
+    if not (A == B) or dict(d):
+        return Fail("%s({%r: 3}) stores %r, %s({%r: 3}) stores %r: equal labels, one monomial, two stored keys "
+                    "(difference %r)" % (case["type"], tuple(case["a"]), dict(A), case["type"], tuple(case["b"]), dict(B), dict(d)),
+                    key="equal-labels-two-keys")
+    return None
+
+
+def _gen_qvalue_raw(ctx):
+    for fn, spin in (("qubo_value", False), ("quso_value", True)):
+        dom = (1, -1) if spin else (0, 1)
+        for key in ((0, 0, 1), (0, 1, 0), (1, 1, 0, 0), (0, 0, 0)):
+            for x0 in dom:
+                for x1 in dom:
+                    yield {"fn": fn, "spin": spin, "terms": {key: 3, (1,): 1}, "x": {0: x0, 1: x1}}
+
+
+@clause("C05.q_value_raw_repeated_labels", "C05", gen=_gen_qvalue_raw, nontrivial=lambda c: True)
+def check_qvalue_raw(case):
+    """qubo_value / quso_value on a plain dict whose keys repeat a label (the function still has degree <= 2, e.g.
+    (0, 0, 1) is x0*x1 for booleans and z1 for spins) equal direct evaluation of the polynomial, as pubo_value /
+    puso_value do."""
+    q = qv()
+    got = getattr(q.utils, case["fn"])(dict(case["x"]), dict(case["terms"]))
+    want = peval(case["terms"], case["x"])
+    if not close(got, want):
+        return Fail("%s(%r, %r) = %r, direct evaluation gives %r" % (case["fn"], case["x"], case["terms"], got, want),
+                    key="q-value-raw-repeated-label")
     return None
